@@ -10,6 +10,7 @@ theorem skel_OAuthProxy_OAuthCallback_ok : skel_OAuthProxy_OAuthCallback = ([
   "return",
   "req.Form.Get",
   "if errorString != \"\"",
+  "fmt.Sprintf",
   "p.ErrorPage",
   "return",
   "decodeState",
@@ -64,6 +65,8 @@ theorem skel_OAuthProxy_doOAuthStart_ok : skel_OAuthProxy_doOAuthStart = ([
   "if err != nil",
   "p.ErrorPage",
   "return",
+  "extraParams.Add",
+  "extraParams.Add",
   "cookies.NewCSRF",
   "if err != nil",
   "p.ErrorPage",
@@ -86,5 +89,66 @@ theorem skel_OAuthProxy_doOAuthStart_ok : skel_OAuthProxy_doOAuthStart = ([
 theorem newCSRF_nonceArgs_ok : newCSRF_nonceArgs = (["32", "32"] : List String) := rfl
 
 theorem csrfStateLength_ok : csrfStateLength = (9 : Int) := rfl
+
+theorem skel_LoadCSRFCookie_ok : skel_LoadCSRFCookie = ([
+  "req.Cookies",
+  "if cookie.Name != cookieName",
+  "if err != nil",
+  "return csrf, nil",
+  "return nil, fmt.Errorf(\"CSRF cookie with name '%v' was not found\", cooki"] : List String) := rfl
+
+theorem skel_decodeCSRFCookie_ok : skel_decodeCSRFCookie = ([
+  "encryption.Validate",
+  "if !ok",
+  "return nil, errors.New(\"CSRF cookie failed validation\")",
+  "errors.New",
+  "decrypt",
+  "if err != nil",
+  "return nil, err",
+  "msgpack.Unmarshal",
+  "if err != nil",
+  "return nil, fmt.Errorf(\"error unmarshalling data to CSRF: %v\", err)",
+  "return csrf, nil"] : List String) := rfl
+
+theorem skel_csrf_cookieName_ok : skel_csrf_cookieName = ([
+  "if c.cookieOpts.CSRFPerRequest",
+  "return csrfCookieName(c.cookieOpts, stateSubstring)"] : List String) := rfl
+
+theorem skel_ExtractStateSubstring_ok : skel_ExtractStateSubstring = ([
+  "if lastChar <= len(state)",
+  "return stateSubstring"] : List String) := rfl
+
+theorem skel_csrf_ClearCookie_ok : skel_csrf_ClearCookie = ([
+  "http.SetCookie",
+  "MakeCookieFromOptions"] : List String) := rfl
+
+theorem skel_csrf_SetCookie_ok : skel_csrf_SetCookie = ([
+  "if err != nil",
+  "return nil, err",
+  "MakeCookieFromOptions",
+  "http.SetCookie",
+  "return cookie, nil"] : List String) := rfl
+
+theorem skel_CheckNonce_ok : skel_CheckNonce = ([
+  "return hmac.Equal([]byte(HashNonce(nonce)), []byte(hashed))",
+  "hmac.Equal"] : List String) := rfl
+
+theorem skel_HashNonce_ok : skel_HashNonce = ([
+  "if nonce == nil",
+  "return \"\"",
+  "sha256.New",
+  "hasher.Write",
+  "hasher.Sum",
+  "return base64.RawURLEncoding.EncodeToString(sum)",
+  "base64.RawURLEncoding.EncodeToString"] : List String) := rfl
+
+theorem skel_NewCSRF_ok : skel_NewCSRF = ([
+  "encryption.Nonce",
+  "if err != nil",
+  "return nil, err",
+  "encryption.Nonce",
+  "if err != nil",
+  "return nil, err",
+  "return &csrf{ OAuthState: state, OIDCNonce: nonce, CodeVerifier: co, nil"] : List String) := rfl
 
 end O2P.Expect.C03
